@@ -146,6 +146,9 @@ def cases():
                       (isinstance(v, NodeV) and "2147483647-0.5" in (v.args.get("seed").text() if hasattr(v.args.get("seed"), "text") else str(getattr(v.args.get("seed"), "v", ""))))
                       else f"seed side channel is `{getattr(v.args.get('seed'), 'v', v.args.get('seed')) if isinstance(v, NodeV) else v}`"),
         "the same seed must map to the same setseed() argument in [-0.5, 0.5]")
+    add("TRIM(x, chars) keeps the trim characters", "trim_cast_varchar",
+        mk(lambda o: node("Trim", "stmt", this=op(o, "x"), expression=op(o, "chars"))),
+        lambda o, i: P("Trim", this=P("Cast", this=IS(o["x"])), expression=IS(o["chars"])), "TRIM(x, chars) removes the given characters, not whitespace")
     return out
 
 
